@@ -37,9 +37,16 @@ RULE = ("same 11 item types and history shapes as C01 with set:modify:ask:bound 
         "aimed at a range aggregate that really occurs (le on min, ge "
         "on max / sum / len, componentwise through the combinator), 'is not a prefix of w' and length thresholds for Concat, "
         "always-true, always-false, and a few non-monotone ones (model only); non-trivial = a search preceded by a range modify "
-        "over a different, overlapping range")
+        "over a different, overlapping range; plus, search-heavy, the families added to C01: 10 item types where ties and operand "
+        "order are observable (Min / Max / MinAdd / MaxAdd over Keyed {key, id} with thresholds on the key - the first closure "
+        "argument is the rightmost extremum - and a few on the id, Min / Max over the two zeros of f64, Sum over strings, "
+        "Combinator<Concat, Concat>, Combinator<Min, Combinator<Max, Sum>>, Combinator<Flip, Sum>), the ties family, large trees "
+        "(n up to 4097; searches from the ends up to n = 257), and one search in six first run with a predicate that panics on "
+        "its 1st-6th call (caught) and then repeated, followed by a query or debug()")
 TRUSTED = base.TRUSTED
-ASSUMPTIONS = base.ASSUMPTIONS + ["searches with a non-monotone predicate are compared with the model only (the crate leaves them unspecified)"]
+ASSUMPTIONS = base.ASSUMPTIONS + ["for the element type Keyed the identity law of Default fails on elements whose key equals i64::MAX / MIN (the id "
+                                  "differs): such keys are not generated, so no search falls into the vacuous branch of spec_check",
+                                  "searches with a non-monotone predicate are compared with the model only (the crate leaves them unspecified)"]
 
 harness_line = base.harness_line
 coq_term = base.coq_term
@@ -47,12 +54,20 @@ classify = base.classify
 shrink = base.shrink
 
 
+# besides the files properties.jsonl anchors C02 in: the searches start from every item's Default and use its merge
+SOURCES = ["rlib/segtree/src/segtree_items.rs", "rlib/num_traits/src/lib.rs"]
+
+
 def generate(rng, tier):
-    count, nflip, ntag = (1200, 180, 120) if tier == "quick" else (30000, 5000, 3000)
+    count, nflip, ntag, nnew, nties = (1200, 180, 120, 240, 110) if tier == "quick" else (30000, 5000, 3000, 9000, 4000)
     r1, r2, r3 = rng.fork("hist"), rng.fork("flip"), rng.fork("tagged")
-    return base.interleave([[base.gen_history(r1, tier, (1, 3, 1, 5), 45) for _ in range(count)],
+    r4, r5, r6 = rng.fork("newkinds"), rng.fork("ties"), rng.fork("big")
+    return base.interleave([[base.gen_history(r1, tier, (1, 3, 1, 5), 45, base.KINDS, 6) for _ in range(count)],
                             [base.gen_flip(r2, tier, 8) for _ in range(nflip)],
-                            [base.gen_tagged(r3, tier, 7) for _ in range(ntag)]])
+                            [base.gen_tagged(r3, tier, 7) for _ in range(ntag)],
+                            [base.gen_history(r4, tier, (1, 3, 1, 5), 35, base.NEW_KINDS, 6) for _ in range(nnew)],
+                            [base.gen_ties(r5, tier, 7) for _ in range(nties)],
+                            base.big_cases(r6, tier)])
 
 
 def nontrivial(c, obs):
@@ -79,7 +94,9 @@ MANIFEST = {
             "c02_lower_bound_rev_trace (every argument shown to the predicate is the in-order merge of such a range; no "
             "commutativity, no monotonicity needed), c02_model_check_spec_check.  Every run compares the real lower_bound / "
             "lower_bound_rev (results and the exact list of closure arguments) with the model and with the plain-array "
-            "specification on search-heavy histories for 11 item types (one of them lazy with the zero-sized modifier type ()).",
+            "specification on search-heavy histories for 21 item types (one of them lazy with the zero-sized modifier type (), ten "
+            "where tied or non-commuting operands are distinguishable), including searches repeated after the predicate panicked "
+            "in the middle of a first attempt.",
     "level_note": "Trusted: Coq kernel + vm_compute; the Rust executor and the Python printer/parsers; Z for i64; sampled "
                   "correspondence; searches with non-monotone predicates are compared with the model only; positions >= n are "
                   "outside the model (the crate panics by out-of-bounds indexing there).",
